@@ -2,6 +2,7 @@ import RxProofs.Lemmas.WinPre
 import RxProofs.Lemmas.WinEnd
 /-!
 # `Pre` (log only grows) is preserved by every step of every window machine.
+(generated from WinBufJ2.lean by textual substitution J ↦ Pre L)
 -/
 namespace Win
 variable {α : Type} {L : List (Nat × Out α)}
@@ -67,20 +68,26 @@ end Bnd
 
 namespace Whn
 theorem Pre_onEnd (s : Whn α) (e) (h : Pre L s.b) : Pre L (onEnd s e).b := Pre_outerEnd _ _ (Pre_winEnd _ _ _ h)
-theorem Pre_createClosing (r : Option Nat) (pool : Nat) (s : Whn α) (h : Pre L s.b) : Pre L (createClosing r pool s).b := by
-  unfold createClosing; simp only []; split
-  · exact Pre_outerEnd _ _ (Pre_winEnd _ _ _ h)
-  · have key : ∀ b1 : Base α, Pre L b1 →
-        Pre L (if s.calls < pool then (if b1.rcDisposed then (b1.subscribe (s.calls + 1)).unsub (s.calls + 1) else b1.subscribe (s.calls + 1)) else b1) := by
-      intro b1 h1
+theorem Pre_createClosingF (r : Option Nat) (pool : Nat) (fuel : Nat) (s : Whn α) (h : Pre L s.b) : Pre L (createClosingF r pool fuel s).b := by
+  induction fuel generalizing s with
+  | zero => exact h
+  | succ fuel ih =>
+    simp only [createClosingF]
+    split
+    · exact Pre_outerEnd _ _ (Pre_winEnd _ _ _ h)
+    · have h1 : Pre L (if s.calls ≥ 1 then s.b.unsub s.calls else s.b) := by split; exact Pre_unsub _ _ h; exact h
+      generalize (if s.calls ≥ 1 then s.b.unsub s.calls else s.b) = b1 at h1 ⊢
       split
-      · split
-        · exact Pre_unsub _ _ (Pre_subscribe _ _ h1)
-        · exact Pre_subscribe _ _ h1
-      · exact h1
-    by_cases hc : s.calls ≥ 1
-    · simp only [hc, if_true]; exact key _ (Pre_unsub _ _ h)
-    · simp only [hc, if_false]; exact key _ h
+      · exact ih _ (Pre_open _ (Pre_winEnd _ _ _ h1))
+      · exact Pre_outerEnd _ _ (Pre_winEnd _ _ _ h1)
+      · simp only []
+        split
+        · split
+          · exact Pre_unsub _ _ (Pre_subscribe _ _ h1)
+          · exact Pre_subscribe _ _ h1
+        · exact h1
+theorem Pre_createClosing (r : Option Nat) (pool : Nat) (s : Whn α) (h : Pre L s.b) : Pre L (createClosing r pool s).b :=
+  Pre_createClosingF r pool _ s h
 theorem Pre_onClose (r : Option Nat) (pool : Nat) (s : Whn α) (h : Pre L s.b) : Pre L (onClose r pool s).b :=
   Pre_createClosing _ _ _ (Pre_open _ (Pre_winEnd _ _ _ h))
 theorem Pre_step (r : Option Nat) (pool : Nat) (s : Whn α) (t : Nat) (ev : Ev α) (h : Pre L s.b) :
@@ -117,10 +124,13 @@ theorem Pre_onOpen (r : Option Nat) (pool : Nat) (s : Tgl α) (h : Pre L s.b) : 
   split
   · exact Pre_errAll _ _ h1
   · split
+    · exact Pre_expire _ _ h1
+    · exact Pre_errAll _ _ h1
     · split
-      · exact Pre_unsub _ _ (Pre_subscribe _ _ h1)
-      · exact Pre_subscribe _ _ h1
-    · exact h1
+      · split
+        · exact Pre_unsub _ _ (Pre_subscribe _ _ h1)
+        · exact Pre_subscribe _ _ h1
+      · exact h1
 theorem Pre_step (r : Option Nat) (pool : Nat) (s : Tgl α) (t : Nat) (ev : Ev α) (h : Pre L s.b) :
     Pre L ((Tgl.mach r pool).step s t ev).b := by
   have h' : Pre L ({ s with b := { s.b with now := t } } : Tgl α).b := Pre_now _ _ h
